@@ -73,6 +73,68 @@ def calls_of(f, cfg):
     return out, ex
 
 
+def _put_table(ctx, rid, f):
+    """put as a decision table (inkalint/semtable.py) over: was the key present, is the map over capacity afterwards.
+    The key joins the queue iff it was new; the oldest entry is evicted iff the map is over capacity - whatever way
+    round the tests are written, with or without an overwrite-in-place fast path."""
+    from ..semtable import explore, judge, TooBig
+    LOOKUPS = ("HashMap::insert", "HashMap::get_mut", "HashMap::get", "HashMap::entry")
+
+    def about_key(t):
+        return any(x[0] == "call" and x[1].endswith(LOOKUPS) for x in [t] + list(leaves(t)))
+
+    def var_of(t):
+        if t[0] == "call" and t[1].endswith("Option::is_none") and about_key(t):
+            return "absent"
+        if t[0] == "call" and t[1].endswith("Option::is_some") and about_key(t):
+            return "present"
+        if t[0] == "discr" and about_key(t[1]):
+            return "present"        # Option: None = 0, Some = 1
+        if t[0] == "call" and t[1].endswith("HashMap::contains_key"):
+            return "present"
+        if t[0] == "call" and (t[1].endswith("HashMap::len") or t[1].endswith("VecDeque::len") or t[1] == HTM + "len"):
+            return "len"
+        if t[0] == "f" and t[2] == "capacity":
+            return "capacity"
+        return None
+    domains = {"present": [0, 1], "absent": [0, 1], "len": [10, 11], "capacity": [10]}
+    try:
+        lvs = explore(f, var_of, domains, max_leaves=2000)
+    except TooBig as e:
+        ctx.lost(rid, "put as a decision table (%s)" % e)
+        return
+
+    def outcome(lf):
+        pushed = len(lf.called("VecDeque::push_back"))
+        popped = len([t for b, t in lf.calls if t[0] == "call" and "VecDeque::pop_" in t[1]])
+        removed = len(lf.called("HashMap::remove"))
+        return (pushed, "evicted" if popped == 1 and removed == 1 else "kept" if popped == 0 and removed == 0 else "half:%d/%d" % (popped, removed))
+
+    def constraint(e):
+        if e["absent"] != 1 - e["present"]:
+            return False
+        if e["present"] and e["len"] > e["capacity"]:
+            return False        # overwriting a present key does not grow the map, and it never exceeds its capacity
+        return True
+    viol, und, n = judge(lvs, ["present", "absent", "len", "capacity"], domains, outcome,
+                         lambda e: (0 if e["present"] else 1, "evicted" if e["len"] > e["capacity"] else "kept"), constraint)
+    def say(e):
+        return "the key was %s and the map is %s capacity afterwards" % ("present" if e["present"] else "new", "over" if e["len"] > e["capacity"] else "within")
+    bad_push = [v for v in viol if v[1][0] != v[2][0]]
+    bad_evict = [v for v in viol if v[1][1] != v[2][1]]
+    ctx.ob(rid, "push-iff-key-was-new", not bad_push,
+           "" if not bad_push else "when %s, put queues the key %d time(s) (expected %d): re-inserting a present key would queue it twice, or a new key would not be queued" % (say(bad_push[0][0]), bad_push[0][1][0], bad_push[0][2][0]),
+           ctx.where(f), sample={"cases": n, "leaves": len(lvs)})
+    ctx.ob(rid, "capacity-check-after-every-insert", not [v for v in bad_evict if v[2][1] == "evicted"],
+           "" if not [v for v in bad_evict if v[2][1] == "evicted"] else "when %s, put does not evict the oldest entry (%s): the map grows past its capacity" % (say([v for v in bad_evict if v[2][1] == "evicted"][0][0]), [v for v in bad_evict if v[2][1] == "evicted"][0][1][1]),
+           ctx.where(f))
+    ctx.ob(rid, "evict-under-capacity-test", not [v for v in bad_evict if v[2][1] == "kept"],
+           "" if not [v for v in bad_evict if v[2][1] == "kept"] else "when %s, put evicts (%s) although the map is within its capacity" % (say([v for v in bad_evict if v[2][1] == "kept"][0][0]), [v for v in bad_evict if v[2][1] == "kept"][0][1][1]),
+           ctx.where(f))
+    for u in und[:1]:
+        ctx.lost(rid, "put under a condition the decision table cannot evaluate (%s)" % "; ".join(show(d) for d, cc in u[3].opaque)[:160])
+
+
 def r2_put(ctx):
     rid = "C18.R2"
     ctx.rule(rid, "put: insert(key, value); push_back(key) iff the key was new; `len > capacity` checked on every path after the insert; evicted key = popped list head, removed from the map", floor=6)
@@ -88,6 +150,7 @@ def r2_put(ctx):
                "put removes the oldest key from the map but only looks at the queue's head (front/back/get) instead of popping it: the dead key stays at the head, the next eviction removes nothing (the map grows past its capacity) and a re-inserted key is evicted at once",
                ctx.where(f, peeks[0][2]["line"]))
         return
+    _put_table(ctx, rid, f)
     if not (len(ins) == 1 and len(push) == 1 and len(pop) == 1 and len(rem) == 1 and len(ln) >= 1):
         ctx.lost(rid, "put: one insert / push_back / pop_front / remove and a len (found %d/%d/%d/%d/%d)" % (len(ins), len(push), len(pop), len(rem), len(ln)))
         return
@@ -102,44 +165,6 @@ def r2_put(ctx):
     ctx.ob(rid, "insert(key,value)-into-map", ok, "" if ok else "put inserts (%s, %s) into %s" % (show(ia[1]), show(ia[2]), show(ia[0])), ctx.where(f, it["line"]))
     ok = target(pa[0]) == fld("entry_list") and pa[1] == KEY
     ctx.ob(rid, "push_back(key)-on-list", ok, "" if ok else "put pushes %s on %s" % (show(pa[1]), show(pa[0])), ctx.where(f, pt["line"]))
-    # push is control dependent on insert(..).is_none() being true
-    cond_ok = False
-    for (a, s) in cfg.control_deps().get(pb, ()):
-        sw = f["blocks"][a]["term"]
-        if sw["k"] == "switch":
-            d = ex.operand(sw["discr"])
-            if d[0] == "call" and d[1].endswith("Option::is_none") and any(x[0] == "call" and x[1].endswith("HashMap::insert") for x in leaves(d)):
-                cond_ok = (s == sw["otherwise"])
-            if d[0] == "call" and d[1].endswith("Option::is_some") and any(x[0] == "call" and x[1].endswith("HashMap::insert") for x in leaves(d)):
-                cond_ok = (s != sw["otherwise"])
-    ctx.ob(rid, "push-iff-key-was-new", cond_ok, "" if cond_ok else "push_back is not guarded by `insert(..).is_none()`: re-inserting a present key would queue it twice (or a new key would not be queued)", ctx.where(f, pt["line"]))
-    # the capacity test: a switch on Gt(len(map), capacity) (or Ge) that post-dominates the insert
-    cap_sw = None
-    for b in sorted(cfg.reach):
-        sw = f["blocks"][b]["term"]
-        if sw["k"] != "switch":
-            continue
-        d = ex.operand(sw["discr"])
-        if d[0] == "bin" and d[1] in ("Gt", "Ge", "Lt", "Le"):
-            sides = (d[2], d[3])
-            has_len = any(x[0] == "call" and x[1].endswith("HashMap::len") and target(x[2][0]) == fld("entry_map") for x in sides)
-            has_cap = any(fld("capacity") in list(leaves(x)) for x in sides)
-            exact_cap = fld("capacity") in sides
-            if has_len and has_cap:
-                len_first = sides[0][0] == "call"
-                op = d[1] if len_first else {"Gt": "Lt", "Ge": "Le", "Lt": "Gt", "Le": "Ge"}[d[1]]
-                cap_sw = (b, sw, op, exact_cap, [x for x in sides if not (x[0] == "call" and x[1].endswith("HashMap::len"))])
-    if cap_sw is None:
-        ctx.lost(rid, "put: comparison of entry_map.len() with capacity")
-        return
-    cb, csw, op, exact_cap, other_side = cap_sw
-    ok = cfg.postdominates(cb, ib) and op in ("Gt",) and exact_cap
-    ctx.ob(rid, "capacity-check-after-every-insert", ok,
-           "" if ok else "the eviction test is `len %s %s` and %s reached on every path after the insert (expected `len > capacity` always)" % ({"Gt": ">", "Ge": ">=", "Lt": "<", "Le": "<="}[op], [show(x) for x in other_side], "is" if cfg.postdominates(cb, ib) else "is not"),
-           ctx.where(f, csw["line"]))
-    true_arm = csw["otherwise"]
-    ok = cfg.dominates(true_arm, ob) and cfg.dominates(ob, rb)
-    ctx.ob(rid, "evict-under-capacity-test", ok, "" if ok else "pop_front/remove are not both under the capacity test", ctx.where(f, ot["line"]))
     popped = None
     for x in leaves(ra[1]):
         if x[0] == "call" and x[1].endswith("VecDeque::pop_front") and target(x[2][0]) == fld("entry_list"):
